@@ -138,6 +138,7 @@ def plain (g : Mon) (op : Op) : Except String Mon :=
       else if r.ps.length + 1 > 5 then .error "limit.add_policy.policies"
       else if g.rules.any (sameFp r.ctx r.sg (r.ps ++ [p])) then .error "dup_fingerprint"
       else .ok (put g { r with ps := r.ps ++ [p] })
+  | .advance n => .ok { g with now := g.now + n }
   | .removePolicy id p => match find g id with
     | none => .error "absent"
     | some r =>
